@@ -9,3 +9,12 @@ import "time"
 func (dest *Destination) VerifSettings() (periodFlush, periodReConn time.Duration, connBufSize, ioBufSize int) {
 	return dest.periodFlush, dest.periodReConn, dest.connBufSize, dest.ioBufSize
 }
+
+// VerifSpoolBacklog reports how much is still waiting in the spool of a
+// destination: messages in the disk queue, and lines buffered in front of it.
+func (dest *Destination) VerifSpoolBacklog() (queueDepth int64, buffered int) {
+	if dest.spool == nil {
+		return 0, 0
+	}
+	return dest.spool.queue.Depth(), len(dest.spool.queueBuffer) + len(dest.spool.InRT)
+}
